@@ -176,6 +176,32 @@ def check_modules(run, glue_reader):
             cases["edge-through-%s:cycle" % kd] = (pre + "struct Foo:\n" + a_decl + "  %s [+1]  UInt  b\n" % a_ref, kd != "requires")
         cases["edge-through-%s:acyclic" % kd] = (pre + "struct Foo:\n" + a_decl + "  4 [+1]  UInt  b\n", False)
     cases["type-argument-self-loop"] = (PAR + "struct Foo:\n  0 [+1]  Par(a.q)  a\n", True)
+    # import graphs (several files): a cycle among imports - including a module that imports ITSELF - is rejected
+    HDR = '[$default byte_order: "LittleEndian"]\n'
+    ST = "struct S%s:\n  0 [+1]  UInt  x\n"
+    imports = {
+        "import-chain-acyclic": ({"w.emb": 'import "a.emb" as a\n' + ST % "w", "a.emb": 'import "b.emb" as b\n' + ST % "a", "b.emb": ST % "b"}, False),
+        "import-diamond-acyclic": ({"w.emb": 'import "a.emb" as a\nimport "b.emb" as b\n' + ST % "w", "a.emb": 'import "c.emb" as c\n' + ST % "a", "b.emb": 'import "c.emb" as c\n' + ST % "b", "c.emb": ST % "c"}, False),
+        "import-two-cycle": ({"w.emb": 'import "a.emb" as a\n' + ST % "w", "a.emb": 'import "w.emb" as w\n' + ST % "a"}, True),
+        "import-three-cycle-off-the-root": ({"w.emb": 'import "a.emb" as a\n' + ST % "w", "a.emb": 'import "b.emb" as b\n' + ST % "a", "b.emb": 'import "c.emb" as c\n' + ST % "b", "c.emb": 'import "a.emb" as a\n' + ST % "c"}, True),
+        "import-self-root": ({"w.emb": 'import "w.emb" as me\n' + ST % "w"}, True),
+        "import-self-leaf": ({"w.emb": 'import "a.emb" as a\n' + ST % "w", "a.emb": 'import "a.emb" as me\n' + ST % "a"}, True),
+        "import-self-plus-acyclic": ({"w.emb": 'import "w.emb" as me\nimport "a.emb" as a\n' + ST % "w", "a.emb": ST % "a"}, True),
+    }
+    bad = None
+    for nm, (files, cyc) in imports.items():
+        files = {k: HDR + v if not v.startswith("import") else "\n".join([l for l in v.split("\n") if l.startswith("import")]) + "\n" + HDR + "\n".join([l for l in v.split("\n") if not l.startswith("import")]) for k, v in files.items()}
+        try:
+            ir, debug, errors = glue.parse_emboss_file("w.emb", glue_reader(files))
+            has = any("ependency cycle" in m.message for g in errors for m in g)
+        except BaseException as ex:
+            if bad is None:
+                bad = {"case": nm, "files": files, "expected": cyc, "exception": "%s: %s" % (type(ex).__name__, str(ex)[:200])}
+            continue
+        if has != cyc and bad is None:
+            bad = {"case": nm, "files": files, "cycle_error_reported": has, "expected": cyc, "errors": str([m.message for g in errors for m in g])[:300]}
+    run.add(core.Obligation("bounded.front-end:import-cycle-error-iff-import-cycle[7 import graphs incl. self-imports]", core.BPASS if bad is None else core.BFAIL, "cpython", 0.0,
+                            model=bad, kind="bounded", replay=None if bad is None else {"reproduced": True, "inputs": bad}))
     bad = None
     for nm, (body, cyc) in cases.items():
         src = '[$default byte_order: "LittleEndian"]\n' + body
@@ -194,7 +220,7 @@ def check_modules(run, glue_reader):
             bad = {"case": nm, "module": src, "cycle_error_reported": has, "expected": cyc, "errors": str(errors)[:300]}
     run.add(core.Obligation("bounded.front-end:cycle-error-iff-cycle[module shapes incl. every reference position]", core.BPASS if bad is None else core.BFAIL, "cpython", 0.0,
                             model=bad, kind="bounded", replay=None if bad is None else {"reproduced": True, "inputs": bad}))
-    return len(cases), len(cases)
+    return len(cases) + len(imports), len(cases) + len(imports)
 
 
 def main(args):
@@ -222,6 +248,23 @@ def main(args):
                 # DAG on <= 4 fields still ordered as the property demands this is a changed scheme, not a violation: undecided
                 ob.replay = {"reproduced": False, "note": "every DAG on <= 4 fields is still ordered as the property demands"}
                 ob.verdict = core.UNKNOWN
+    # E1, second batch: how the graphs are built and how cycles are reported (contracts/depgraph.py)
+    n1_ = len(run.obligations)
+    pool.run_targets(run, "contracts.depgraph", ["_find_module_import_dependencies", "dependency_edges", "cycle_reports"])
+    bad_front = next((o for o in run.obligations[:n0] if o.verdict == core.BFAIL and o.name.startswith("bounded.front-end")), None)
+    for ob in run.obligations[n1_:]:
+        if ob.verdict == core.REFUTED and ob.replay is None and bad_front is not None:
+            ob.replay = {"reproduced": True, "inputs": bad_front.model, "note": "failing module(s) of the bounded front-end part of the same run"}
+    for fn, how in [("_find_module_import_dependencies", "1463 import graphs (<= 3 modules incl. the prelude, each importing any <= 2 of 4 files): node per module, edge per import INCLUDING self-imports; only the prelude's automatic self-import is left out"),
+                    ("_add_name_to_dependencies", "the field / enum value / parameter becomes a node, edges recorded earlier are kept, the node is passed on as the current name"),
+                    ("_add_reference_to_dependencies", "edge to the referenced object (same or other module); $is_statically_sized / $static_size_in_bits / $next here: one error, no edge; other nodes untouched"),
+                    ("_add_field_reference_to_dependencies", "edge to the HEAD of a field path of length 1-3 only; earlier edges kept; other nodes untouched"),
+                    ("_find_object_dependency_cycles", "over the callee contracts of _find_dependencies / _find_cycles / find_object: construction errors returned as they are; else exactly one error group per cycle (none dropped, self-loops included), naming every member, error first then notes, sorted"),
+                    ("_find_module_dependency_cycles", "same, for import cycles"),
+                    ("find_dependency_cycles", "module-cycle errors followed by object-cycle errors; empty iff neither reports a cycle")]:
+        run.function("compiler.front_end.dependency_checker." + fn, "pyvc: " + how)
+    run.assume("dependency graph construction (contracts/depgraph.py): hashable_form_of_reference is (module_file,) + object_path of the ghost canonical name; error.error / error.note are tagged tuples; which IR nodes the edge functions are applied to "
+               "(the two traversals of _find_dependencies with their skip lists) is covered by the bounded every-reference-position modules only; _find_cycles is a callee contract here and a bounded comparison elsewhere")
     run.function("compiler.front_end.dependency_checker._find_dependency_ordering_for_fields_in_structure",
                  "pyvc: one round of its while-True scan from any state (n <= 4 fields, any subset placed, 0-2 symbolic dependencies per remaining field): appends the first remaining field whose dependencies are all added, "
                  "updates order/added/needed exactly, leaves the loop only when no remaining field is ready")
